@@ -87,10 +87,7 @@ def snapshot(facts):
         if nl:
             ent = {}
             for l, ty, nm in nl:
-                if nm in ent:          # shadowed names: keep the list of all definitions' signatures
-                    ent[nm][1] = ent[nm][1] + ' || ' + local_signature(facts, b, l)
-                else:
-                    ent[nm] = [ty, local_signature(facts, b, l)]
+                ent.setdefault(nm, []).append([ty, local_signature(facts, b, l), l])
             pins['locals'][b.id] = ent
     return pins
 
@@ -125,32 +122,48 @@ def apply(facts):
         if not pl:
             continue
         cur = named_locals(b)
-        curnames = {nm for _, _, nm in cur}
-        missing = [nm for nm in pl if nm not in curnames]
-        if not missing:
+        # pinned items (one per pinned local; a shadowed name has several) in declaration order
+        items = []
+        for nm, ents in pl.items():
+            if ents and not isinstance(ents[0], list):
+                ents = [ents + [0]]          # old file format: [ty, sig]
+            for e in ents:
+                items.append((e[2] if len(e) > 2 else 0, nm, e[0], e[1]))
+        items.sort()
+        by_name = {}
+        for l, ty, nm in cur:
+            by_name.setdefault(nm, []).append(l)
+        unmatched = []
+        used = set()
+        for idx, nm, ty, sg in items:
+            ls = [l for l in by_name.get(nm, []) if l not in used]
+            if ls:
+                used.add(ls[0])               # same name still present: nothing to do
+            else:
+                unmatched.append((idx, nm, ty, sg))
+        if not unmatched:
             continue
-        fresh = [(l, ty, nm) for l, ty, nm in cur if nm not in pl]
+        pinned_names = set(pl)
+        fresh = [(l, ty, nm) for l, ty, nm in cur if l not in used and nm not in pinned_names]
         if not fresh:
             continue
-        sigs = {}
-        for nm in missing:
-            ty, sg = pl[nm]
+        sigs = {l: local_signature(facts, b, l) for l, ty, nm in fresh}
+        # group by (type, signature); several pinned locals with the same signature are re-bound in declaration order
+        groups = {}
+        for it in unmatched:
+            groups.setdefault((it[2], it[3]), []).append(it)
+        for (ty, sg), its in groups.items():
             if ' || ' in sg:
-                continue            # shadowed at pin time: not aliased
-            cands = []
-            for l, t2, n2 in fresh:
-                if t2 != ty:
-                    continue
-                if l not in sigs:
-                    sigs[l] = local_signature(facts, b, l)
-                if sigs[l] == sg:
-                    cands.append((l, n2))
-            names = {n2 for _, n2 in cands}
-            if len(names) == 1 and len(cands) == 1:
-                l, n2 = cands[0]
+                continue
+            cands = sorted(l for l, t2, n2 in fresh if t2 == ty and sigs[l] == sg and l not in used)
+            if len(cands) != len(its):
+                continue
+            for (idx, nm, _, _), l in zip(sorted(its), cands):
+                old_name = b.locals[l][1]
                 b.locals[l] = [b.locals[l][0], nm]
-                made.append('%s: local `%s` presented as `%s`' % (b.short, n2, nm))
-                _alias_upvar(facts, b, n2, nm)
+                used.add(l)
+                made.append('%s: local `%s` presented as `%s`' % (b.short, old_name, nm))
+                _alias_upvar(facts, b, old_name, nm)
     return made
 
 
